@@ -9,7 +9,7 @@ PROPS = {
     "C03": {"ReleaseJustified", "NoLeakAtQuiescence"},
     "C04": {"LiveKeepsIP", "NoUnassignWhileLive"},
     "C05": {"MemStoreAgree"},
-    "C06": {"Routable"},
+    "C06": {"Routable", "IPInfoOfPool", "FilterImpliesBind", "HolderOfferedRoutableOnly", "FreshOfferedExactly"},
     "C07": {"PoolCap"},
     "C08": {"MultiInRangeOrdered", "MultiAllOrNothing"},
     "C09": {"NoReservedOrUnconfiguredHandedOut", "ReservedNotAllocated"},
@@ -19,7 +19,7 @@ PROPS = {
 # which scenario families a property draws its traces from (its own first)
 FOCUS = {
     "C01": ["c01", "c04", "c09"], "C02": ["c02", "c07"], "C03": ["c03", "c02"], "C04": ["c04", "c01", "c10"],
-    "C18": ["c04", "c07", "c05"], "C05": ["c05"], "C06": ["c02", "c08"], "C07": ["c07"], "C08": ["c08", "c05"], "C09": ["c09"], "C10": ["c10", "c04"],
+    "C18": ["c04", "c07", "c05"], "C05": ["c05"], "C06": ["c06", "c02", "c08"], "C07": ["c07"], "C08": ["c08", "c06"], "C09": ["c09"], "C10": ["c10", "c04"],
 }
 # a trace is non-trivial for the property if it contains ...
 def relevant(pid, lines):
@@ -39,6 +39,12 @@ def relevant(pid, lines):
         return len(binds) >= 1 and bool({"StartUnbind", "StartResync", "StartApiRelease"} & evs)
     if pid == "C05":
         return bool({"Crash", "Restart"} & evs) or any(e.get("crashed") for e in lines) or any(e.get("f", 0) for e in lines if e.get("ev") == "Step")
+    if pid == "C06":
+        # a scheduler cycle: a filter that ran to its end followed by the start of the bind of the same pod
+        for i, e in enumerate(lines):
+            if e.get("ev") == "StartBind" and i > 0 and lines[i - 1].get("ev") == "Step" and lines[i - 1].get("typ") == "filter" and "res" in lines[i - 1]:
+                return True
+        return False
     if pid == "C07":
         return "AllocateInSubnet" in calls or "AllocateInSubnetWithKey" in calls
     if pid == "C08":
@@ -165,6 +171,10 @@ def plugin_traces(run, pid, quick):
         run.coverage["evaluations"] += rep["stats"]["events"]
         run.coverage.setdefault("conformant_lines", 0)
         run.coverage["conformant_lines"] += rep["stats"]["conform"]
+        if pid == "C06":   # how often the C06 predicates had their antecedent (counted by the trace specification)
+            for k in ("winfilter", "winfresh", "winholder", "winbind", "winbindwait"):
+                run.coverage.setdefault("c06_" + k, 0)
+                run.coverage["c06_" + k] += rep["stats"].get(k, 0)
         for tid, lines in traces.items():
             if relevant(pid, lines):
                 sig = tuple((e.get("ev"), e.get("typ"), e.get("call"), e.get("f", 0), json.dumps(e.get("ret", {}).get("ok", e.get("ret", {}).get("res")))) for e in lines)
